@@ -11,8 +11,10 @@ open Selen_model
 open Conv
 open Mlevel_cmd
 
-(* SELEN_ROUTES_FIXED=1: the model of the tree AFTER fixes/routes_{implies_cumulative,felement_bounds,prepare_validation_errors}.patch *)
-let fixed_mode = (try Sys.getenv "SELEN_ROUTES_FIXED" = "1" with Not_found -> false)
+(* The repairs routes_{implies_cumulative,felement_bounds,prepare_validation_errors} are in /repo (fix commits a88ba19,
+   b9ad7d3, 596c327): the model of the repaired tree (call_fixed / rbuild_fixed of coq/Model/Routes.v) is the default;
+   SELEN_ROUTES_PREFIX=1 selects the model of the tree before them (used for the refutation witnesses only). *)
+let fixed_mode = not (try Sys.getenv "SELEN_ROUTES_PREFIX" = "1" with Not_found -> false)
 let rbuild prog = if fixed_mode then rbuild_fixed prog else rbuild prog
 let rexec s m = if fixed_mode then rexec_fixed s m else rexec s m
 let kf_noop_route r = if fixed_mode then false else kf_noop_route r
